@@ -56,6 +56,19 @@ func (t *WeightedMerkleTrie) GetPath(keys [][]byte) ([]byte, error) {
 			if err != nil {
 				return nil, err
 			}
+		} else {
+			// the root is not a branch (shared-prefix node or single entry): there is
+			// nothing to fan out over, mark the paths one by one
+			for _, key := range keys {
+				k := keybytesToHex(key)
+				_, err := t.markToCollect(t.root, k, 0)
+				if err != nil {
+					if errors.Is(err, ErrKVNotFound) {
+						err = ErrNotFound
+					}
+					return nil, err
+				}
+			}
 		}
 	} else {
 		for _, key := range keys {
